@@ -97,7 +97,7 @@ class ModelScripts:
         return lines
 
 
-def random_history(rng, kind, nkeys, nvals, nops, p_fail=0.05, with_bad=False, two=True, init_pairs=0, alias=True, refuse=False):
+def random_history(rng, kind, nkeys, nvals, nops, p_fail=0.05, with_bad=False, two=True, init_pairs=0, alias=True, refuse=False, xasg=True):
     """A random in-contract history (plus absent-key get/rem, which the properties define) over up to 3 containers."""
     lines = ["reset"]
     kinds = {}
@@ -115,6 +115,9 @@ def random_history(rng, kind, nkeys, nvals, nops, p_fail=0.05, with_bad=False, t
         o = rng.choice(sorted(kinds))
         r = rng.random()
         k = rng.choice(hot) if rng.random() < 0.7 else rng.randint(1, nkeys)
+        if xasg and present[o] and rng.random() < 0.025:
+            lines.append("xasg %d" % o)           # assigned from a map of other element types (other sizes), and back
+            continue
         if r < 0.06 and alias and present[o]:
             ko = rng.choice(sorted(present[o]))
             lines.append("setalias %d %d %d %d" % (o, k, ko, rng.randint(1, nvals)))      # arguments taken from the container itself
